@@ -268,6 +268,9 @@ SHAPES = {
     "fall off the end": "#pragma version 6\ntxn Amount\nbz l\nint 1\nl:\nint 1\n",
     "main falls off the end after a call": "#pragma version 6\nb main\nf:\nint 1\npop\nretsub\nmain:\ncallsub f\nint 1\n",
     "subroutine path falls off the end": "#pragma version 6\ncallsub f\nint 1\nreturn\nf:\ntxn Amount\nbz x\nretsub\nx:\nint 1\n",
+    "version 3 program (no subroutines yet)": "#pragma version 3\ntxn Amount\nbz z\nint 0\nreturn\nz:\nint 1\nreturn\n",
+    "program without a version line": "txn Amount\nint 0\n==\n",
+    "instructions the optimisation detectors report": "#pragma version 6\nint 0\ngtxns Amount\npop\ntxn GroupIndex\ngtxns Amount\npop\ntxna Accounts 0\npop\ntxn GroupIndex\ngtxnsa ApplicationArgs 0\npop\nint 1\nreturn\n",
     # the assembler accepts retsub anywhere; executed outside a subroutine it fails (nothing to return to)
     "retsub in the main program": "#pragma version 6\ntxn Amount\nbz ok\nretsub\nok:\nint 1\nreturn\n",
     "retsub in the main program next to a subroutine": "#pragma version 6\ntxn Amount\nbz ok\nretsub\nok:\ncallsub f\nint 1\nreturn\nf:\nretsub\n",
